@@ -175,7 +175,7 @@ func (m *mutator) mutate(d *D, ctx int, top bool) *D {
 			c.Sub = append(c.Sub, d.Sub[i], m.mutate(d.Sub[i+1], ctx, false))
 		}
 		return &c
-	case "fmap", "amap":
+	case "fmap", "amap", "bmap", "cmap":
 		return d // key order of float/array keys: not re-instantiated
 	case "mapIntStr":
 		for i := 0; i+1 < len(d.Sub); i += 2 {
@@ -213,7 +213,7 @@ func (m *mutator) mutate(d *D, ctx int, top bool) *D {
 		if d.S == "" {
 			c.F = mutFloat(d.F)
 		}
-		if d.N != 0 {
+		if d.N != 0 && d.N < 9000 {
 			c.N = d.N * 2
 		}
 	case "STyped":
